@@ -97,7 +97,8 @@ func runC06(c *vk.Ctx) {
 		ch := chain.New(chain.Options{Denoms: append(append([]string{}, denoms...), clShare), NumAccounts: 5})
 		defer ch.Close()
 		ch.NextBlock(5 * time.Second)
-		owners := ch.Accs[:4]
+		owners := append([]chain.Account{}, ch.Accs[:4]...)
+		unpayable := -1
 		// every third history locks a factory denom whose name merely contains "cl/pool" instead of baz
 		denoms := append([]string{}, denoms...)
 		if i%3 == 1 {
@@ -117,6 +118,21 @@ func runC06(c *vk.Ctx) {
 		}
 		if i%4 == 2 {
 			denoms[1] = clShare
+		}
+		// every fifth history (shortcut sweeps only): a fifth owner that the bank module refuses to pay — the governance
+		// module account, which can come to own a lock through a governance-executed message. Paying out its matured
+		// lock fails; on this code the end blocker then panics (the block, and with it the chain, halts) and nothing is
+		// written. The history ends there; what must never happen is that the lock disappears while its coins stay behind.
+		if i%5 == 4 && i%10 != 9 && i%3 != 1 {
+			gov := authtypes.NewModuleAddress("gov")
+			fund := sdk.NewCoins()
+			for _, d := range denoms {
+				fund = fund.Add(sdk.NewCoin(d, sdkmath.NewIntWithDecimal(1, 39)))
+			}
+			if err := ch.App.BankKeeper.SendCoins(ch.Ctx, ch.Accs[4].Addr, gov, fund); err == nil {
+				owners = append(owners, chain.Account{Addr: gov})
+				unpayable = len(owners) - 1
+			}
 		}
 		burned := map[string]sdkmath.Int{} // owner/denom -> concentrated shares burned at maturity
 		q := lockupkeeper.NewQuerier(*ch.App.LockupKeeper)
@@ -462,6 +478,9 @@ func runC06(c *vk.Ctx) {
 
 		for step := 0; step < opsPer; step++ {
 			oi := r.Intn(len(owners))
+			if unpayable >= 0 && r.Intn(3) == 0 {
+				oi = unpayable
+			}
 			o := owners[oi]
 			k := r.Intn(100)
 			var op, outcome string
@@ -700,6 +719,18 @@ func runC06(c *vk.Ctx) {
 				if dt < 0 {
 					dt = 0
 				}
+				if unpayable >= 0 && ch.Height%120 == 0 {
+					stuck := false
+					for _, l := range m.locks {
+						if l.owner == unpayable && l.unlocking() && !l.end.After(ch.Time) {
+							stuck = true
+						}
+					}
+					if stuck {
+						c.Class("time|would-halt-on-unpayable-owner")
+						return
+					}
+				}
 				c.Logf("advance %s", dt)
 				ch.NextBlock(dt)
 				outcome = "advanced"
@@ -722,9 +753,30 @@ func runC06(c *vk.Ctx) {
 					outcome = fmt.Sprintf("real-swept%d", min(n, 3))
 				} else {
 					at := ch.Ctx.BlockTime()
-					sweep()
-					n := modelSweep(at)
-					outcome = fmt.Sprintf("swept%d", min(n, 3))
+					stuck := false
+					for _, l := range m.locks {
+						if l.owner == unpayable && l.unlocking() && !l.end.After(at) {
+							stuck = true
+						}
+					}
+					if stuck {
+						// a matured lock whose owner cannot be paid: run the sweep on a branch
+						h := (ch.Ctx.BlockHeight()/120 + 1) * 120
+						cctx, write := ch.Ctx.CacheContext()
+						rec, _ := vk.Guard(func() { lockup.EndBlocker(cctx.WithBlockHeight(h), *ch.App.LockupKeeper) })
+						if rec != nil {
+							c.Class("sweep|halts-on-unpayable-owner|live%d", bucket(len(m.locks)))
+							return // the chain halts here on this code; nothing was written
+						}
+						write()
+						modelSweep(at)
+						outcome = "swept-with-unpayable-owner"
+						// the sweep completed: every matured lock, the unpayable one included, must then really be paid out
+					} else {
+						sweep()
+						n := modelSweep(at)
+						outcome = fmt.Sprintf("swept%d", min(n, 3))
+					}
 				}
 			}
 			if !check(op) {
